@@ -4,6 +4,7 @@ restore /repo, and write seeded/RESULTS.md."""
 import json, os, subprocess, sys, glob, time
 rows = []
 only = sys.argv[1:]
+subprocess.run("rm -rf /tmp/evidence_backup && cp -r /verif/evidence /tmp/evidence_backup", shell=True)
 for d in sorted(glob.glob("/verif/seeded/*/")):
     name = os.path.basename(d.rstrip("/"))
     if only and name not in only:
@@ -23,6 +24,7 @@ for d in sorted(glob.glob("/verif/seeded/*/")):
     finally:
         subprocess.run("git -C /repo checkout -- .", shell=True)
     print(rows[-1], flush=True)
+subprocess.run("rm -rf /verif/evidence && mv /tmp/evidence_backup /verif/evidence", shell=True)
 with open("/verif/seeded/RESULTS.md", "w") as f:
     f.write("| seeded change | property | quick check | time | first violation line |\n|---|---|---|---|---|\n")
     for r in rows:
